@@ -145,6 +145,7 @@ func newBuilderFlow(p *Program) *builderFlow {
 	bf.root = root
 	keys := it.obj("KEYS", "seed", entry.Params[1].Type(), entry.Pos(), "")
 	keys.cell("*").labels[lblKey] = true
+	keys.cell("*").labels[lblKeyData] = true
 	bf.keys = keys
 	root.get(it, entry.Params[1]).pts[keys] = true
 	root.get(it, entry.Params[2]).labels["values"] = true
